@@ -166,6 +166,33 @@ def random_mesh(rng, nj=None, ni=None, *, maxn=4, split=0.3, merge=0.35, jitter=
     return Mesh(faces, x, y), winding
 
 
+def hanging_mesh(rng, maxn=4):
+    """A non-conforming mesh on an exact integer lattice: some 2 x 1 rectangles are described by their four corner
+    nodes only, while the neighbours above / below still use the node in the middle of the long edge (a hanging node).
+    Faces never overlap (coordinates are exact), but they do not form a node-matched coverage."""
+    nj = int(rng.integers(2, maxn + 1))
+    ni = int(rng.integers(2, maxn + 1))
+    x0, y0 = float(rng.integers(100, 150)), float(rng.integers(-40, -10))
+    node = lambda j, i: j * (ni + 1) + i   # noqa: E731
+    used = numpy.zeros((nj, ni), dtype=bool)
+    faces = []
+    for j in range(nj):
+        for i in range(ni):
+            if used[j, i]:
+                continue
+            if i + 1 < ni and not used[j, i + 1] and chance(rng, 0.4):
+                used[j, i] = used[j, i + 1] = True
+                faces.append([node(j, i), node(j, i + 2), node(j + 1, i + 2), node(j + 1, i)])      # middle nodes omitted
+            else:
+                used[j, i] = True
+                faces.append([node(j, i), node(j, i + 1), node(j + 1, i + 1), node(j + 1, i)])
+    xs = numpy.array([x0 + (n % (ni + 1)) for n in range((nj + 1) * (ni + 1))], dtype=float)
+    ys = numpy.array([y0 + (n // (ni + 1)) for n in range((nj + 1) * (ni + 1))], dtype=float)
+    keep = sorted({n for f in faces for n in f})
+    remap = {old: new for new, old in enumerate(keep)}
+    return Mesh([[remap[n] for n in f] for f in faces], xs[keep], ys[keep]), 'ccw'
+
+
 def _merge_some_pentagons(rng, faces):
     faces = [list(f) for f in faces]
     done = set()
